@@ -98,7 +98,8 @@ def gen_setting(rng, profile='wf', focus=None):
 
 
 # truthy arguments that parse to no setting at all
-EMPTYISH = [[';'], [';;;'], [['']], [{'T': ['']}], [[[]]], ['', ';'], [[], 'bold'], ['bold', ''], [';red']]
+EMPTYISH = [[';'], [';;;'], [['']], [{'T': ['']}], [[[]]], ['', ';'], [[], 'bold'], ['bold', ''], [';red'],
+            ['bold', {'T': []}, 'red', {'T': []}], [[], 'bold', []], [{'T': []}], [[{'T': []}, 'underline'], 'red', {'T': []}]]
 
 
 def gen_settings(rng, profile='wf', maxn=3, focus=None):
@@ -816,7 +817,8 @@ def gen_matchspec(rng, text):
         ch = re.escape(ch)
         p = rng.choice(['a*', 'b?', '(?=a)', 'ab|b', '.', ch + '+', ch, '[ab]', '\\w+', '\\s', '(a)(b)?', ch + '*',
                         '$', '^', 'A', '[A-Z]', '', 'a*?', ch + '*?', ch + '??', '|' + ch + 'b', '|' + ch, '\\b|\\w',
-                        ch + '{0,2}?', '\\d*|[a-z]+', '(?:)|' + ch + '+', ch + '|', '\\B', '(?i:' + ch + ')'])
+                        ch + '{0,2}?', '\\d*|[a-z]+', '(?:)|' + ch + '+', ch + '|', '\\B', '(?i:' + ch + ')',
+                        '\\S+', '\\s+', '\\W', '\\w', '\\D+', '\\d+', '\\S', '\\b' + ch, '\\B' + ch])
     if rng.random() < 0.4:
         kw['match_case'] = rng.random() < 0.6
     if rng.random() < 0.5:
